@@ -652,6 +652,34 @@ def c14(case, lines):
         last = tr.by.get(ks[-1], [])
         if any(x.startswith("N %d" % j) for x in last):
             return "streams: stream %d still pending after the context was dropped" % j
+    # a stream that has reported its end has yielded everything that had been delivered to it before the Context went away
+    if not tr.faulty or has(tr, "eof"):
+        conn = connection_streams(tr)[0]
+        inp = inbound(tr, conn)
+        fp = first_polls(tr)
+        order = sorted([i for i, o in specs.items() if o["kind"] == "sub" and i in fp and "f" in o["args"]], key=lambda i: fp[i])
+        sid_of = {op: n + 1 for n, op in enumerate(order)}
+        dropped_stream = {int(m.group(2)) for e in tr.evs for m in [re.match(r"(dropstream|dropop) (\d+)$", e)] if m}
+        if inp is not None and not has(tr, "hold", "spin"):
+            for op in order:
+                if op not in ended or op in dropped_stream:
+                    continue
+                want, aw = [], set()
+                for k, pk in inp:
+                    i = rx_info(pk)
+                    if i["t"] == 6:
+                        aw.discard(i["pid"])
+                    if i["t"] != 3 or k > dk:
+                        continue
+                    red = i["qos"] == 2 and i["pid"] in aw
+                    if i["qos"] == 2:
+                        aw.add(i["pid"])
+                    if k > fp[op] and not red and sid_of[op] in i["subids"]:
+                        want.append(M.hx(i["payload"]))
+                got = [kv(" ".join(l.split(" ")[3:]))["pl"] for l in lines if l.split(" ")[1] == "I" and int(l.split(" ")[2]) == op]
+                if got != want:
+                    return "streams: stream %d reported its end having yielded %d of the %d messages delivered to it before the Context was dropped (%s...)" % (
+                        op, len(got), len(want), got[:3])
     return None
 
 
